@@ -4,9 +4,9 @@
    blanks; [decorate]; what parser.ReadPeek hands on ([significant], [annotations]).
    Model/DecorSites.v: the audited list of sites that render a node to text. *)
 From Coq Require Import List NArith String.
-From Falco Require Import Gen.StringSites Model.Decor Model.DecorSites Proofs.DecorProofs.
+From Falco Require Import Gen.StringSites Gen.MetaReads Model.Decor Model.DecorSites Model.DecorReads Proofs.DecorProofs.
 From Falco Require Import Base.Res Gen.Tokens Model.Lex Model.Pump Proofs.DecorReal.
-From Falco Require Model.ParseBase Model.ParseDecl.
+From Falco Require Model.ParseBase Model.ParseDecl Model.Ast Model.Yield Proofs.ParseDeclYield.
 Import ListNotations.
 
 (* inserting / removing / moving ordinary comments, blanks and line feeds never changes the
@@ -90,6 +90,24 @@ Theorem C09_parse_inert_real :
      ParseDecl.parse_vcl_or_snippet fok (to_ptoks tok_of ms') = ParseDecl.parse_vcl_or_snippet fok (to_ptoks tok_of ms).
 Proof. exact parse_inert_real. Qed.
 
+(* parse-level inertness composed with C02's parse_yield, for EVERY program the parser model accepts: the tree
+   built from the decorated stream is the tree of the stripped stream, and its tokens (every declaration,
+   statement and expression once, in source order) are exactly the significant tokens of the DECORATED
+   stream - no comment, line feed or blank is part of the tree.  [body] = pumped tokens before the final EOF. *)
+Theorem C09_decorated_parse_yield :
+  forall (tok_of : str * str -> ParseBase.token) (fok : ParseBase.str -> bool)
+         (is_ann : str -> bool) e e' ts ts' n n',
+  is_eof e = true -> is_eof e' = true ->
+  no_pragma ts -> no_pragma ts' -> (S (List.length ts) <= n)%nat -> (S (List.length ts') <= n')%nat ->
+  decorate (absS is_ann e ts) (absS is_ann e' ts') ->
+  exists ms ms', pump_all n e ts = OK ms /\ pump_all n' e' ts' = OK ms' /\
+    ParseDecl.parse_vcl fok (body tok_of ms') = ParseDecl.parse_vcl fok (body tok_of ms) /\
+    forall v, ParseDecl.parse_vcl fok (body tok_of ms) = ParseBase.POK v ->
+              ParseDeclYield.no_eof (body tok_of ms) = true ->
+              ParseDecl.parse_vcl fok (body tok_of ms') = ParseBase.POK v /\
+              body tok_of ms' = flat_map Yield.ystmt (Ast.vstmts v).
+Proof. exact decorated_parse_yield. Qed.
+
 (* inserting a real ordinary COMMENT token anywhere before the end of a real stream is a decoration *)
 Theorem C09_real_insert_comment :
   forall (is_ann : str -> bool) e t1 t2 c,
@@ -97,9 +115,21 @@ Theorem C09_real_insert_comment :
   decorate (absS is_ann e (t1 ++ t2)) (absS is_ann e (t1 ++ c :: t2)).
 Proof. exact real_insert_comment. Qed.
 
+(* T tie: the reads of comment / layout / position carrying fields in linter/ and interpreter/, regenerated with
+   go/types, are exactly the audited ones; each belongs to a documented consumer (positions only where a position
+   is reported; comments only by the ignore / annotation / macro / mark readers); no pure layout field
+   (PreviousEmptyLines, PrefixedLineFeed, Nest, EndLine, EndPosition, Offset) is read at all *)
+Theorem C09_meta_reads_audited :
+  meta_reads = map fst audited_reads /\
+  forallb consistent_read audited_reads = true /\
+  existsb reads_layout meta_reads = false.
+Proof. split; [reflexivity | split; reflexivity]. Qed.
+
+Print Assumptions C09_meta_reads_audited.
 Print Assumptions C09_pump_refines_decor.
 Print Assumptions C09_pump_strip_real.
 Print Assumptions C09_parse_inert_real.
+Print Assumptions C09_decorated_parse_yield.
 Print Assumptions C09_real_insert_comment.
 Print Assumptions C09_pump_strip.
 Print Assumptions C09_annotations_stable.
